@@ -26,7 +26,7 @@ def gates(tier):
     return {
         "min_decided": {APIS[0]: 800 * k, APIS[1]: 4000 * k, APIS[2]: 4000 * k},
         "shapes": {c: 3 * k for c in ["recursive", "nonlinear_scc", "eps_rule", "unary_cycle", "non_generating_symbol",
-                                      "sr:Boolean", "sr:MaxTimes", "sr:Real", "eos:inner", "eos:double", "eos:none", "eos:double-wrap"]},
+                                      "sr:Boolean", "sr:MaxTimes", "sr:Real", "eos:inner", "eos:double", "eos:none", "eos:double-wrap", "scale:big-grammar"]},
         "min_hashseeds": 2,
     }
 
@@ -34,6 +34,11 @@ def gates(tier):
 def gen_case(rng, spec):
     from rv.gen import grammars as GG
 
+    if rng.random() < 0.05:
+        # scale: 10-16 nonterminals, 6-10 terminals, a head with 8-12 alternatives; sampled members up to 12 tokens
+        bg = GG.gen_big_grammar(rng)
+        return {"g": {k: bg[k] for k in ("S", "V", "rules")}, "maxlen": 1, "R2": rng.choice(["Float", "Boolean", "MaxTimes", "Real"]),
+                "scale": rng.randrange(1 << 30)}
     for _ in range(20):
         tmpl = rng.choice([None, None, "useless", "nonlinear_nullable", "unary_cycle", "repeated_symbol", "eps", "centre_rec"])
         g = GG.gen_grammar(rng, template=tmpl)
@@ -66,7 +71,9 @@ def run_case(case, ctx):
     try:
         O = lib.oracle_for(g, "Float")
         Z = O.Z
-        strings = list(GG.strings_upto(g["V"], case["maxlen"]))
+        strings = GG.case_strings(g, case["maxlen"], case.get("scale") or 0, k=8, max_len=12)
+        if case.get("scale"):
+            ctx.shape["scale:big-grammar"] += 1
         want = {x: O.weight(x) for x in strings}
     except (cfgref.Singular, cfgref.NoConverge) as e:
         ctx.skip("case", f"oracle-not-applicable:{type(e).__name__}")
